@@ -155,9 +155,19 @@ inline V genValue(pbt::Src &src, const GenOpts &go, int depth)
       v.k = V::Dbl;
       v.bigIntLiteral = true;
       std::string lit = src.coin() ? "-" : "";
-      lit += (char)('1' + src.range(0, 8));
-      auto n = src.range(19, 40);
-      for (std::int64_t i = 0; i < n; ++i) lit += (char)('0' + src.range(0, 9));
+      if (src.coin(1, 3))
+      {
+        // exactly 19 digits, just beyond the int64 range: 9[3-9]d{17} > 9223372036854775807
+        lit += '9';
+        lit += (char)('3' + src.range(0, 6));
+        for (int i = 0; i < 17; ++i) lit += (char)('0' + src.range(0, 9));
+      }
+      else
+      {
+        lit += (char)('1' + src.range(0, 8));
+        auto n = src.range(19, 40);
+        for (std::int64_t i = 0; i < n; ++i) lit += (char)('0' + src.range(0, 9));
+      }
       v.s = lit;
       v.d = std::strtod(lit.c_str(), nullptr);
       return v;
